@@ -12,7 +12,7 @@ PROPS = {
     'C06': dict(sim=[_X]),
     'C11': dict(sim=[_X]),
     'C12': dict(sim=[_X, ('migrate', 12, 200)], modelled='in-flight accounting end-to-end (scenarios xfer, migrate): bytes in flight return to zero once everything is acknowledged; aborted and completed migrations (packets abandoned with the path)'),
-    'C16': dict(sim=[_X]),
+    'C16': dict(sim=[_X, _MTU], modelled='datagram admission end-to-end (scenario mtu): application datagrams of every size up to and above max_size() sent throughout, also while the path is a black hole; send() accepts exactly what fits the reported maximum and the buffer, Blocked only without space and never with drop, max_size() <= MTU estimate, and no datagram stays queued for ever once everything else is done'),
     'C03': dict(sim=[_H], modelled='unauthenticated input end-to-end (system simulator, scenario hostile): random and structure-aware mutated datagrams injected into both real endpoints while two connections run: no panic anywhere, the connection that is not attacked is unaffected, connection table bounded'),
     'C13': dict(sim=[_MTU, _X], modelled='datagram sizing end-to-end (system simulator, scenarios mtu and xfer): every Transmit of both peers checked against the MTU estimate of its time (one single probe excepted), probes against min(upper_bound, peer max_udp_payload_size), rises of the estimate against the probes sent, GSO segment counts, and completion of bulk workloads while the path MTU changes (black-hole fallback)'),
     'C04': dict(sim=[_X, _H], modelled='forged datagrams end-to-end (scenario hostile): no established connection ends or stalls under unauthenticated injection, a handshake fails only by Version Negotiation; receive pipeline observed end-to-end: per frame type, frames processed by the receiver <= frames sent by the sender under duplication/replay/corruption/truncation (public ConnectionStats)'),
